@@ -2,3 +2,4 @@
 import Stingray.Model
 import Stingray.Props.C05
 import Stingray.Props.C17
+import Stingray.Props.C16
